@@ -160,6 +160,9 @@ func itemCtx(ctx context.Context, i int) context.Context {
 	return context.WithValue(ctx, ItemKey, i)
 }
 
+// NilErrV as the value of an 'E' event makes the source end with Error(nil).
+const NilErrV = -424242
+
 func emit(ctx context.Context, d ro.Observer[int], i int, e Ev) {
 	switch e.K {
 	case 'N':
@@ -169,10 +172,14 @@ func emit(ctx context.Context, d ro.Observer[int], i int, e Ev) {
 			d.NextWithContext(context.WithValue(ctx, ItemKey, i), e.V)
 		}
 	case 'E':
+		var err error
+		if e.V != NilErrV {
+			err = Err(e.V)
+		}
 		if ctx == nil {
-			d.Error(Err(e.V))
+			d.Error(err)
 		} else {
-			d.ErrorWithContext(context.WithValue(ctx, EndKey, i), Err(e.V))
+			d.ErrorWithContext(context.WithValue(ctx, EndKey, i), err)
 		}
 	case 'C':
 		if ctx == nil {
